@@ -321,6 +321,7 @@ type c09Session struct {
 	accepted  int
 	outcomes  []byte
 	feeds     int
+	rbuf      []byte // the one receive buffer of the session's read loop
 	kp        keeper
 	release   []func() // write-protected inputs are handed back when the session ends
 }
@@ -374,6 +375,29 @@ func (s *c09Session) feed(c *fw.Ctx, p []byte, r *fw.Rand) bool {
 			return false
 		}
 		c.Evals(3)
+	}
+	// the read loop of a receiver: every payload arrives in the SAME receive buffer, and the application asks IsPartitionHead about
+	// it before it unmarshals it. The predicates are functions of the payload they are given: a fresh receiver answers the same.
+	if len(p) > 0 && len(p) <= 2048 && s.kind.mode != 2 {
+		if s.rbuf == nil {
+			s.rbuf = make([]byte, 2048)
+		}
+		rb := s.rbuf[:len(p):len(p)]
+		copy(rb, p)
+		var hA, tA, hF, tF bool
+		if pv, st := fw.Guard(func() {
+			hA, tA = s.a.Head(rb), s.a.Tail(false, rb)
+			f := s.kind.mk()
+			hF, tF = f.Head(cp()), f.Tail(false, cp())
+		}); pv != nil {
+			c.Fail("C09/"+name+"/panic/IsPartitionHeadOrTail/"+fw.PanicFunc(st), fmt.Sprintf("IsPartitionHead/IsPartitionTail panicked: %v", pv), wit("stack", st))
+			return false
+		}
+		if hA != hF || tA != tF {
+			c.Fail("C09/"+name+"/reuse/predicate-differs-from-a-fresh-receiver", fmt.Sprintf("IsPartitionHead/IsPartitionTail(false) on a used receiver (payload in the reused receive buffer): %v/%v, on a fresh receiver: %v/%v", hA, tA, hF, tF), wit())
+			return false
+		}
+		c.Count("predicates_asked_on_the_reused_receive_buffer", 1)
 	}
 	inA := cp()
 	canary := func() bool { return false }
